@@ -314,6 +314,10 @@ func casesSearch(c *caseCtx, prop string) {
 	}
 	maxd := c.scale(3, 4)
 
+	if prop == "C03" || prop == "C13" {
+		deepChecks(c, prop)
+	}
+
 	switch prop {
 	case "C03":
 		for _, f := range searchFENs {
@@ -442,4 +446,87 @@ func runHaltCase(c *caseCtx, zt *board.ZobristTable, zseed int64, fenStr string,
 	c.emit("halt %d %s %d %d %d %s cancel=%d => %s %d %s %s %d %d || %s || %s || %s %s %s || %s %s %s", zseed, posTok(pos), turn, np, fm, cfg.String(), n,
 		b01(err1 != nil), nodes, scoreTok(score), pvTok(pv), len(rec.writes), nAfter, before, after,
 		b01(err2 != nil), scoreTok(score2), first(pv2), b01(err3 != nil), scoreTok(score3), first(pv3))
+}
+
+// deepChecks: failing-input search on the implementation itself, beyond the depth the extracted
+// oracle can reach: AlphaBeta (full window for C03, random windows for C13) against the repository's
+// exhaustive Minimax with the same static leaf, on history-free mate-rich endings at depth 4-5.
+// Disagreements are printed as IMPLVIOL lines (picked up by check.py as violations with a replay).
+var deepFENs = []string{
+	"8/3r4/8/8/K1k5/8/8/8 w - - 0 1",
+	"k7/8/8/8/1q1K4/8/5q2/8 w - - 0 1",
+	"3k4/8/3K4/8/8/8/8/R7 w - - 0 1",
+	"k7/2K5/8/8/8/8/8/1R6 w - - 0 1",
+	"7k/8/5K2/6Q1/8/8/8/8 w - - 0 1",
+	"5k2/8/5K2/8/8/8/8/6RR w - - 0 1",
+	"8/8/8/8/8/1k6/2q5/K7 w - - 0 1",
+	"6k1/8/6K1/8/8/8/8/1Q6 b - - 0 1",
+	"8/8/8/8/8/k7/2q5/K7 b - - 0 1",
+	"1k6/8/K7/8/8/8/8/3R3R b - - 0 1",
+}
+
+func deepChecks(c *caseCtx, prop string) {
+	zt := board.NewZobristTable(0)
+	n := 0
+	run := func(f string, d int, low, high eval.Score) {
+		pos, turn, np, fm, err := fen.Decode(f)
+		if err != nil || pos == nil {
+			return
+		}
+		b1 := board.NewBoard(zt, pos, turn, np, fm)
+		b2 := board.NewBoard(zt, pos, turn, np, fm)
+		ctx := context.Background()
+		_, v, _, _ := search.Minimax{Eval: search.Leaf{Eval: eval.Material{}}}.Search(ctx, &search.Context{TT: search.NoTranspositionTable{}}, b1, d)
+		_, r, pv, _ := search.AlphaBeta{Eval: search.Leaf{Eval: eval.Material{}}}.Search(ctx, &search.Context{Alpha: low, Beta: high, TT: search.NoTranspositionTable{}}, b2, d)
+		n++
+		le := func(a, b eval.Score) bool { return !b.Less(a) }
+		ok := true
+		switch {
+		case low.Less(v) && v.Less(high):
+			ok = le(r, v) && le(v, r)
+		case le(v, low):
+			ok = le(v, r) && le(r, low)
+		default:
+			ok = le(high, r) && le(r, v)
+		}
+		if !ok {
+			fmt.Printf("IMPLVIOL deep %s depth=%d window=(%s,%s) :: AlphaBeta returned %s (pv %s), exhaustive Minimax %s prop=%s\n", f, d, scoreTok(low), scoreTok(high), scoreTok(r), pvTok(pv), scoreTok(v), prop)
+		}
+	}
+	for i, f := range deepFENs {
+		d := 4
+		if i < c.scale(8, len(deepFENs)) {
+			d = 5
+		}
+		if prop == "C03" {
+			run(f, d, eval.NegInfScore, eval.InfScore)
+			run(f, d-1, eval.NegInfScore, eval.InfScore)
+		} else {
+			for k := 0; k < c.scale(3, 12); k++ {
+				a, b := randomWindowScore(c), randomWindowScore(c)
+				if b.Less(a) {
+					a, b = b, a
+				}
+				if a.Less(b) {
+					run(f, d, a, b)
+				}
+			}
+		}
+	}
+	for i := 0; i < c.scale(300, 6000); i++ {
+		if f, ok := randomSmallPosition(c); ok {
+			if prop == "C03" {
+				run(f, 4, eval.NegInfScore, eval.InfScore)
+			} else {
+				a, b := randomWindowScore(c), randomWindowScore(c)
+				if b.Less(a) {
+					a, b = b, a
+				}
+				if a.Less(b) {
+					run(f, 4, a, b)
+				}
+			}
+		}
+	}
+	fmt.Printf("deepcmp=%d\n", n)
 }
